@@ -701,7 +701,10 @@ func runC06(c *Ctx) error {
 					htrace = append(htrace, fmt.Sprintf("out(admitted=%v)", allowed))
 				}
 			}
+			// every history ends with the sender's packet (which sets up or refreshes the connection when a
+			// service admits the sender) followed by the same 5-tuple in another sender's frame
 			sendIn()
+			spoofIn()
 			outSeen = false
 			c.CoqSetup("Prelude Gen SeqCorr Policy PolicyCorr", "c06_hcase", "c06_hok")
 			c.Case(fmt.Sprintf("(%s,%s,%s,%s)", g.coq(selfID.IP), coqBool(handle), ipN(apiAddr), coqList(hsteps)), map[string]any{"kind": "history", "history": htrace})
